@@ -268,7 +268,8 @@ static void direct(const Fields& f, Case& c) {
   refjson::Result r = refjson::parse(*num);
   bool is_num = (r.ok && (r.value.k == MV::Uint || r.value.k == MV::Sint || r.value.k == MV::Real)) ||
                 (!r.ok && r.fault == refjson::kNumberOverflow && r.offset == 0);
-  if (!is_num) return;  // not a number spelling: outside this harness's domain
+  if (num->find_first_not_of("0123456789+-.eE") != std::string::npos) is_num = false;  // e.g. surrounding whitespace
+  if (!is_num) return;  // not a bare number spelling: outside this harness's domain
   int ctx = field(f, "ctx") ? atoi(field(f, "ctx")->c_str()) : -1;
   size_t pad = field(f, "pad") ? (size_t)atoi(field(f, "pad")->c_str()) : 0;
   for (int k = 0; k < 3; k++) {
